@@ -184,11 +184,13 @@ pub fn router_for(payload: &Payload, opts: StreamOpts) -> Router {
 /// Payload whose logical length sits on a chunk boundary residue.
 pub fn draw_payload(chunk: usize, allow_failure: bool) -> Payload {
     let k = range(0, 4) as usize;
-    let len = match simkernel::choose(5) {
+    let len = match simkernel::choose(7) {
         0 => 0,
         1 => (k * chunk).saturating_sub(1),
         2 => k * chunk,
         3 => k * chunk + 1,
+        // many chunks (more than any internal queue holds)
+        4 | 5 => (range(5, 40) as usize * chunk + pick(&[0usize, 0, 1]) * (chunk / 2)).saturating_sub(pick(&[0usize, 1])),
         _ => range(0, 3 * chunk as u32 + 5) as usize,
     }
     .min(64 * 1024);
@@ -211,7 +213,8 @@ pub fn draw_payload(chunk: usize, allow_failure: bool) -> Payload {
 
 pub fn fail_point(len: usize, chunk: usize) -> usize {
     // after every chunk boundary +-1 byte, or anywhere
-    let k = range(0, 3) as usize * chunk;
+    let n_chunks = (len / chunk.max(1)) as u32;
+    let k = range(0, n_chunks.max(3)) as usize * chunk;
     let p = match simkernel::choose(4) {
         0 => k.saturating_sub(1),
         1 => k,
